@@ -1154,4 +1154,6 @@ def run(ctx):
     ctx.extra["programs"] = len(chains)
     ctx.extra["disagreements_checked"] = len(chains)
     ctx.extra["samples"] = samples or [{"chain": "-"}]
+    from .. import macrolint
+    macrolint.hygiene_rule(ctx, ["iter_eval", "for_each", "iter_collect_const"], facts.REPO)
     ctx.floor("TV", 400)
